@@ -184,6 +184,8 @@ FEATURE_GRAMMARS = [
     ('skip-group', "start: 'a' (?: 'b' 'a') 'b' $ | (?: 'a') x:'a' (?: y:'b') $ | (?: 'b' | 'a' 'b') {(?: 'b')} 'a' $ ;\n"),
     # a name over a group of several nodes, bound again afterwards; an override over such a group in a rule called mid-sequence
     ('named-multi-node-group', "start: 'a' x:('a' 'b') x:'b' $ | 'b' x:('a' 'b') x:('b' 'a') $ | 'b' r 'a' $ ;\n\nr: 'b' @:('a' 'b') ;\n"),
+    # a name over a group whose later elements bring several values of their own (an optional, a group with a choice, a closure)
+    ('named-group-with-composite-tail', "start: 'a' x:('a' ['b' 'a']) $ | 'b' y:('b' ('a' 'b' | 'b')) $ | z+:('b' 'a' {'a' 'b'}+) $ | @:('a' 'b' ['a' 'b' 'a']) $ ;\n"),
     ('names-in-nested-choice', "start: ('a' x:'a' | 'b' [x:'b'] y:'a') [z:'b' | z+:'a'] ;\n"),
 ]
 
@@ -197,7 +199,7 @@ def feature_inputs(name, tier):
         'meta-all': ['-1 ', '2 ', '1.5 ', 'true ', 'x '], 'lookaheads': ['a', 'b', 'c', 'd', ' '],
         'ws-directive': ['a-b', 'c', ' ', '\t', '(*x*)', '#x\n'], 'long-choice': ['a' * 9, 'b' * 9, 'j' * 9, 'a', ' '],
         'unicode': ['é', 'こんにちは', '世界', 'w', 'x', ' '],
-        'named-multi-node-group': ['a ', 'b '],
+        'named-multi-node-group': ['a ', 'b '], 'named-group-with-composite-tail': ['a ', 'b '],
         'wide-first': ['日本', 'a', 'b', ' '], 'wide-inner': ['日本', 'a', 'b', 'c', ' '], 'wide-inner-2': ['日本語', 'x', 'a', ' '], 'wide-last': ['日本', 'a', ' '],
         'wide-names': ['ｗ', 'a', '世', '界', 'c', ' '],
         'long-gather': ['a' * 20, 'b' * 20, ',', ' '], 'long-join': ['a' * 20, 'c' * 20, ';', ' '],
@@ -205,7 +207,7 @@ def feature_inputs(name, tier):
         'long-closures': ['a' * 20 + ' ', 'b' * 20 + ' ', 'd' * 20 + ' ', 'g' * 20 + ' ', 'i' * 20], 'long-named': ['a' * 20 + ' ', 'c' * 20 + ' ', 'd' * 20, 'a'],
     }.get(name, ['a', 'b', ' '])
     n = 4 if tier == 'quick' else 5
-    if name in ('include', 'pynames', 'meta-all', 'lookaheads', 'unicode', 'token-rule-names', 'cut-in-group-optional', 'left-right-joins', 'left-right-joins-named', 'skip-group', 'named-multi-node-group') or name.startswith('long-'):
+    if name in ('include', 'pynames', 'meta-all', 'lookaheads', 'unicode', 'token-rule-names', 'cut-in-group-optional', 'left-right-joins', 'left-right-joins-named', 'skip-group', 'named-multi-node-group', 'named-group-with-composite-tail') or name.startswith('long-'):
         n = 5       # their longest alternative needs that many lexemes
     if name == 'long-choice':
         n = 2
@@ -322,6 +324,57 @@ def shard_codegen(m, items):
             compare(m, text, False, model, pcls, t, f'{name}/parseinfo', {'parseinfo': True}, factory, known=known)
 
 
+REUSE_GRAMMARS = [
+    ('reuse-words', "start: {word}+ $ ;\n\nword: 'ab' | 'a' | num ;\n\nnum: /\\d+/ ;\n", ['a ab 1', 'a  ab', 'aab', 'a b', 'ab1', 'x', '', 'A AB', '1 2']),
+    ('reuse-stmt', "start: stmt $ ;\n\nstmt: n:name '=' v:term | n:name ;\n\nterm: name | /\\d+/ ;\n\nname: /[a-z]+/ ;\n", ['x = 1', 'x=y', 'x', 'x =', '= 1', 'x y', '1', 'X = 1']),
+]
+REUSE_SETTINGS = [{}, {'whitespace': ''}, {'nameguard': False}, {'ignorecase': True}, {'start': 'SECOND'}, {'parseinfo': True}]
+
+
+def shard_reuse(m, items):
+    """One generated parser object used for two parses: whatever the first one was given and however it ended, the second
+    gives what the model gives for the second call's own arguments."""
+    for name, text, inputs in items:
+        model = impl.compile_text(text)
+        pcls, _src = load_generated(model)
+        second_rule = model.rules[1].name
+        m.add('programs')
+        for s1 in REUSE_SETTINGS:
+            s1 = {k: (second_rule if v == 'SECOND' else v) for k, v in s1.items()}
+            for t1 in inputs:
+                for s2 in REUSE_SETTINGS[:2] + REUSE_SETTINGS[4:5]:
+                    s2 = {k: (second_rule if v == 'SECOND' else v) for k, v in s2.items()}
+                    for t2 in inputs:
+                        parser = pcls()
+                        import contextlib
+                        import io
+                        try:
+                            with contextlib.redirect_stderr(io.StringIO()):
+                                parser.parse(t1, **s1)
+                            first = 'ok'
+                        except Exception:  # noqa
+                            first = 'failed'
+                        from tatsu.exceptions import FailedParse, ParseException
+                        try:
+                            with contextlib.redirect_stderr(io.StringIO()):
+                                got = ('ok', impl.norm(parser.parse(t2, **s2), False))
+                        except FailedParse as e:
+                            got = ('fail', type(e).__name__, getattr(e, 'pos', None))
+                        except ParseException as e:
+                            got = ('fail', type(e).__name__, None)
+                        except Exception as e:  # noqa
+                            got = ('exc', type(e).__name__, str(e)[:100])
+                        want = impl.parse(model, t2, **s2)
+                        m.add('evaluations', 3)
+                        m.add('transitions', 3)
+                        m.add('states')
+                        if first == 'failed':
+                            m.add('nontrivial')
+                        if got[0] != want[0] or (got[0] == 'ok' and got[1] != want[1]):
+                            m.violation(f'reused-generated-parser/second-parse-differs-from-the-model/after-a-{first}-parse', grammar=text,
+                                        first=[t1, s1], second=[t2, s2], got=got, model=want)
+
+
 def shard_cuts(m, items, inputs=()):
     for name, exp, extra, _ne, _nx, _b in items:
         g = gs.Grammar(rules=[gs.Rule('start', exp)] + list(extra))
@@ -349,6 +402,7 @@ def run(rc):
     rc.pmap(shard_exprs, exps, inputs=inputs, settings=settings)
     rc.pmap(shard_features, FEATURE_GRAMMARS, chunk=1, tier=rc.tier)
     rc.pmap(shard_codegen, CODEGEN_CASES, chunk=2)
+    rc.pmap(shard_reuse, REUSE_GRAMMARS, chunk=1)
     c = rc.total.counts
     rc.rule = ('every expression tree of the C01 alphabet up to the node bound (plus helper rules) and a family of feature grammars '
                '(directives, keywords, parameters, Python-keyword rule names, upper-case rules, parseinfo, Python-literal-like tokens, quotes, '
